@@ -109,7 +109,24 @@ fn digest(resp: &str) -> String {
             for &b in body.as_bytes() {
                 h = (h ^ b as u64).wrapping_mul(1099511628211);
             }
-            return format!("ok n={} h={}", body.matches(';').count() + 1, h);
+            // a ring of points `xLON,xLAT;...`: also the width of its longitude window
+            let mut span = String::new();
+            let mut it = body.split(';').filter_map(|pt| pt.split(',').next().and_then(p_f64));
+            if body.starts_with('x') {
+                if let Some(first) = it.next() {
+                    let (mut mn, mut mx) = (first, first);
+                    for x in it {
+                        if x < mn {
+                            mn = x;
+                        }
+                        if x > mx {
+                            mx = x;
+                        }
+                    }
+                    span = format!(" span={}", show_f64(mx - mn));
+                }
+            }
+            return format!("ok n={} h={}{}", body.matches(';').count() + 1, h, span);
         }
     };
     let (mut h, mut sm, mut x) = (0xcbf29ce484222325u64, 0u64, 0u64);
